@@ -173,6 +173,13 @@ def run_check(prop_id, tier, seed):
     """returns the process exit code"""
     ctx = Ctx(prop_id, tier, seed)
     mod = importlib.import_module('harness.props.' + prop_id)
+    try:
+        from .props import _extra
+        extra = [t for t in _extra.EXTRA_TARGETS.get(prop_id, []) if t not in mod.LEAN_TARGETS]
+        if extra:
+            mod.LEAN_TARGETS = list(mod.LEAN_TARGETS) + extra
+    except ImportError:
+        pass
     findings = load_findings()
     known = {f['id']: f for f in findings.get('findings', []) if f.get('property') == prop_id}
     print('== %s tier=%s seed=%d repo=%s' % (prop_id, tier, seed, ctx.repo), flush=True)
